@@ -138,6 +138,33 @@ def run(R):
                       "of a line to the remaining budget (join fan-out)")
     R.rule("C07.agg", "batch aggregates: the limit is applied to the complete result table in ExecutionEngine::execute only "
                       "(no other reader of the statement's limit in the execution engines)")
+    R.rule("C07.sentinel", "`no LIMIT` stays distinguishable from every LIMIT n: the statement's Option<usize> limit is never collapsed to a plain "
+                           "number by a default (unwrap_or(k) / unwrap_or_default / map_or(k, ..)) other than usize::MAX - LIMIT k would "
+                           "then mean `no limit` (or the reverse)")
+    n_lim = 0
+    for g0 in sorted(P.fns.values(), key=lambda g: g.key):
+        if g0.target != "lib" or g0.derived or g0.kind == "Closure" or not re.match(r"^sqlgrep::(execution|executor|model)\b", g0.spath):
+            continue
+        g = PR.view(P, g0)
+        for c in g.calls:
+            m = re.search(r"^core::option::Option::(unwrap_or|unwrap_or_default|map_or)$", short(c.name))
+            if not m or not c.args or c.args[0].get("k") not in ("copy", "move") or not (c.args[0].get("ty") or "").startswith("core::option::Option<usize>"):
+                continue
+            if "limit" not in F.provenance_fields(g, c.args[0], depth=10):
+                continue
+            n_lim += 1
+            dflt = c.args[1] if len(c.args) > 1 else None
+            is_max = dflt is not None and dflt.get("k") == "const" and str(dflt.get("int")) == str(2 ** 64 - 1)
+            if is_max:
+                R.ok("C07.sentinel", g0.spath.split("::")[-1] + "|limit-default", "limit.unwrap_or(usize::MAX)", c.loc(), nontrivial=False)
+            else:
+                R.violation("C07.sentinel", g0.spath.split("::")[-1] + "|limit-default",
+                            "%s turns the statement's optional LIMIT into a plain number with the default %s: a statement without LIMIT and one "
+                            "with LIMIT %s become indistinguishable (LIMIT 0 must print nothing, no LIMIT everything)"
+                            % (g0.path, dflt.get("int", dflt.get("v", "?")) if isinstance(dflt, dict) and dflt.get("k") == "const" else "Default (0)",
+                               dflt.get("int", "k") if isinstance(dflt, dict) and dflt.get("k") == "const" else 0), [c.loc()])
+    if n_lim == 0:
+        R.ok("C07.sentinel", "limit-default", "the Option<usize> limit is nowhere replaced by a default value", R.need_fn(ENG + "execute").loc())
     for name in (L.FILE_EXEC, L.FOLLOW_EXEC):
         f = L.exec_view(R, name)
         sn = "::".join(f.spath.split("::")[-2:])
